@@ -178,11 +178,13 @@ def one_pattern(ctx, tr, rng, k, j):
 
 FIXED_TREE = [('f', 'f', None), ('d', 'd', None), ('d/f2', 'f', None), ('d/e', 'd', None), ('d/e/g', 'f', None), ('.h', 'f', None),
               ('.hd', 'd', None), ('.hd/x', 'f', None), ('ld', 'l', 'd'), ('lf', 'l', 'f'), ('dangling', 'l', 'nowhere'),
-              ('loop', 'l', 'loop'), ('README', 'f', None), ('thru', 'l', 'f/x'), ('long', 'l', 'n' * 300), ('ping', 'l', 'pong'), ('pong', 'l', 'ping')]
+              ('loop', 'l', 'loop'), ('README', 'f', None), ('thru', 'l', 'f/x'), ('long', 'l', 'n' * 300), ('ping', 'l', 'pong'), ('pong', 'l', 'ping'),
+              # names holding a line feed or (an ordinary character on POSIX) a backslash
+              ('n\nl', 'd', None), ('n\nl/k', 'f', None), ('w\n', 'd', None), ('bs\\', 'f', None), ('e\n', 'f', None), ('bd\\', 'd', None), ('bd\\/i', 'f', None)]
 FIXED_PATTERNS = ['.', '..', './', '../', '*/.', 'd/..', 'd/.', '.|f', '{.,f}', '**/.', 'd', 'd/', 'f', 'f/', 'dangling', 'dangling/', 'ld', 'ld/',
                   'ld/*', '', '*', '**', '**/', './f', 'd//f2', 'd/../f', 'README/', 'README/**', 'README//', 'loop', 'loop/', 'lf', 'lf/', 'dangling|f',
                   '{dangling,loop}', '.h', '.hd', '.hd/', '.*', 'd/e', 'd/e/', 'd/*/', '*/', '*/*', 'd/**', 'ld/**', './.', '.././', 'nope', 'nope/',
-                  'd/./f2', '[d]', '[d]/', '?', 'f|f/', '{d,d/}', './/', 'd///', 'thru', 'thru/', 't*', 't*/', 'long', 'l*/', 'ping', 'p*/', '{ping,d}/', '**/t*']
+                  'd/./f2', '[d]', '[d]/', '?', 'f|f/', '{d,d/}', './/', 'd///', 'thru', 'thru/', 't*', 't*/', 'long', 'l*/', 'ping', 'p*/', '{ping,d}/', '**/t*', 'b*', 'b*/', 'n*', 'n*/*', 'w*', '?', '??', '[e]*', '*\\\\', 'b?\\\\']
 FIXED_FLAGSETS = [(), ('MARK',), ('NODIR',), ('MARK', 'GLOBSTAR'), ('SCANDOTDIR', 'MARK'), ('NODOTDIR',), ('MARK', 'DOTGLOB', 'GLOBSTAR'),
                   ('GLOBSTAR', 'FOLLOW', 'MARK'), ('NODIR', 'GLOBSTAR', 'DOTGLOB'), ('MARK', 'MATCHBASE'), ('IGNORECASE', 'MARK')]
 
